@@ -13,14 +13,13 @@ GROUPS = [
           defines=["WIDTH=2"], unwind=11, checks=CH, timeout=900, bounded="command 'dd d dd' with symbolic decimal digits; both byte orders"),
 ]
 GROUPS += [g for g in _c05.GROUPS if "Memory.write16" in g.name or "Memory.write1[" in g.name or "MemoryPage" in g.name]
-GROUPS.append(Group(name="C19/naken_util.main.set_pc[bounded]", unity="C19/u_utilmain.cpp", entry="h_utilmain",
-                    functions=[("main", "main/naken_util.cpp", "harness, bounded (T11 drops the unused #include <string>)"), ("String::*", "common/String.cpp", "real callee")],
-                    defines=["VERIF_PURE_BODY=;"], unwind=16, unwindset=["naken_util_main.1:2"], checks=CH, timeout=1500, mem_gb=19, tier="thorough",
-                    bounded="command lines of 1..3 words from a 9-word vocabulary (-set_pc, -address, -break_io, -bin, a CPU name, an unknown option, two numbers, a file name); standard input at end of file"))
-GROUPS.append(Group(name="C19/naken_util.main.last_option[bounded]", unity="C19/u_utilmain.cpp", entry="h_utilmain",
-                    functions=[("main", "main/naken_util.cpp", "harness, bounded")],
-                    defines=["VERIF_PURE_BODY=;", "LASTOPT"], unwind=16, unwindset=["naken_util_main.1:2"], checks=CH, timeout=1500, mem_gb=19, tier="thorough",
-                    bounded="command lines of 1..2 words that end in an option taking a value (-set_pc, -address, -break_io, -disasm_range, -sim_serial) with the value missing"))
+_CMD = {1: "-set_pc 0x1234", 2: "-set_pc 0x1234 a.hex", 3: "a.hex -set_pc 77", 4: "-msp430 -set_pc 0x1234", 5: "-address 0x1234 -bin a.hex", 6: "-break_io 77 -set_pc 0x1234 a.hex",
+        11: "-disasm_range", 12: "a.hex -disasm_range", 13: "-set_pc", 14: "a.hex -address", 15: "-break_io", 16: "a.hex -sim_serial 1"}
+for scn, cmd in _CMD.items():
+    GROUPS.append(Group(name="C19/naken_util.main.cmdline%d[bounded]" % scn, unity="C19/u_utilmain.cpp", entry="h_utilmain",
+                        functions=[("main", "main/naken_util.cpp", "harness, one concrete command line (T11 drops the unused #include <string>)"), ("String::*", "common/String.cpp", "real callee")],
+                        defines=["VERIF_PURE_BODY=;", "SCN=%d" % scn], unwind=40, unwindset=["naken_util_main.1:2"], checks=CH, timeout=600,
+                        bounded="the single command line `naken_util %s`, standard input at end of file; file_read, UtilContext and Simulate are contracts" % cmd))
 LEVEL = "other"
 EXPLANATION = ("Bounded model checking (CBMC, complete unwinding for the stated string lengths) of the real command parsers and write commands, plus the bounded Memory "
                "byte-map/16-bit round-trip checks shared with C05; strings are unbounded in the tool, so no unbounded proof is claimed.")
